@@ -147,7 +147,18 @@ func (defaultLocker *DefaultLocker) Lock(ctx context.Context, accounts Accounts)
 
 	select {
 	case <-ctx.Done():
-		defaultLocker.intents.RemoveValue(intent)
+		// The grant may race with the cancellation: decide under the locker's mutex
+		// whether the intent is still queued (drop it) or was already granted (give
+		// the accounts back), so that an abandoned request never keeps a lock.
+		defaultLocker.mu.Lock()
+		select {
+		case <-intent.acquired:
+			intent.unlock(ctx, defaultLocker)
+			recheck()
+		default:
+			defaultLocker.intents.RemoveValue(intent)
+		}
+		defaultLocker.mu.Unlock()
 		return nil, errors.Wrapf(ctx.Err(), "locking accounts: %s as read, and %s as write", accounts.Read, accounts.Write)
 	case <-intent.acquired:
 		return releaseIntent, nil
